@@ -3,7 +3,7 @@
 # starting 00- are repairs, not mutants) against the property's scenarios with the quick tier's total number of runs.
 # Output: mutants-matrix.txt (one line per mutant).  4 properties at a time.
 cd /verif
-declare -A RUNS=([C01]=6400 [C02]=32000 [C03]=1200 [C04]=6400 [C05]=12000 [C06]=2400 [C07]=24000 [C08]=24000 [C09]=4800 [C10]=4800 [C11]=1200 [C12]=1600 [C13]=3200 [C14]=320 [C15]=240 [C16]=1200 [C17]=3200 [C18]=12000 [C20]=4320)
+declare -A RUNS=([C01]=6400 [C02]=32000 [C03]=1200 [C04]=6400 [C05]=12000 [C06]=2400 [C07]=24000 [C08]=24000 [C09]=4800 [C10]=4800 [C11]=1200 [C12]=1600 [C13]=3200 [C14]=320 [C15]=240 [C16]=1200 [C17]=3200 [C18]=24000 [C20]=4320)
 props=${@:-C01 C02 C03 C04 C05 C06 C07 C08 C09 C10 C11 C12 C13 C14 C15 C16 C17 C18 C20}
 known=$(grep -o 'fingerprint=[^ ]*' known_findings.txt | cut -d= -f2 | sort -u)
 doprop() {
